@@ -264,7 +264,9 @@ def r10_5(ctx):
     wt = [c for c in walk_no_nested(f.node) if isinstance(c, ast.Call) and isinstance(c.func, ast.Attribute) and c.func.attr in ("set_initial", "apply_initial")
           and isinstance(c.func.value, ast.Attribute) and c.func.value.attr == "_method"]
     nf = ctx.norm(f)
-    ok = len(wt) == 1 and [nf.key(t) for t, p in sc.guards(wt[0]) if p] == [Norm(None).key(ast.parse("self.master is not None and self.master.is_transcribed", mode="eval").body)]
+    from ..paths import guard_conjuncts_set
+    # nested under the test or behind the guard clause `if not (..): return`: the same condition either way
+    ok = len(wt) == 1 and guard_conjuncts_set(sc.path_guards(wt[0])) == guard_conjuncts_set([("self.master is not None and self.master.is_transcribed", True)])
     fa = [c for c in walk_no_nested(f.node) if is_call_to(c, "for_all_primitives")]
     ok = ok and len(fa) == 1 and sc.order[fa[0]] < sc.order[wt[0]]
     ctx.check(ok, "Stage.set_initial re-applies the guesses to a live transcription after recording them", detail="guess given after transcription not applied (or applied before it is recorded)",
